@@ -240,11 +240,12 @@ pub struct CronMonitor {
     /// miners whose first callback after (re-)enrolment has been seen
     pub callback_seen: BTreeSet<u64>,
     pub ever_enrolled: BTreeSet<u64>,
+    pub idle_unfunded: BTreeSet<u64>,
 }
 
 impl CronMonitor {
     pub fn new() -> Self {
-        CronMonitor { callback_seen: BTreeSet::new(), ever_enrolled: BTreeSet::new() }
+        CronMonitor { callback_seen: BTreeSet::new(), ever_enrolled: BTreeSet::new(), idle_unfunded: BTreeSet::new() }
     }
 
     /// inspect one cron tick's trace; `claims_before` = claims before the tick
@@ -328,6 +329,11 @@ impl CronMonitor {
                     if fresh && proving.is_empty() && !m.deadline_cron_active {
                         o.violate("one_pending_callback", "C05/no_pending_callback/fresh-miner-creation-deposit-only",
                             format!("{when}: miner {} holds vesting funds {} (its creation deposit) but has no pending proving-deadline callback and deadline_cron_active=false: the constructor locks the deposit without enrolling the cron", m.id, m.locked_funds));
+                    } else if self.idle_unfunded.contains(&m.id) && proving.is_empty() && !m.deadline_cron_active && m.precommits.is_empty() && m.pre_commit_deposits.is_zero() && m.initial_pledge.is_zero() {
+                        // the cron had stopped for a miner without funds; funds were locked afterwards
+                        // (ApplyRewards locks 75% of a reward) and nothing re-enrolled it
+                        o.violate("one_pending_callback", "C05/no_pending_callback/funds-locked-after-cron-stopped",
+                            format!("{when}: miner {} holds vesting funds {} locked after its deadline cron had stopped (no sectors, deposits or pledge): no proving-deadline callback is pending and deadline_cron_active=false", m.id, m.locked_funds));
                     } else {
                         o.violate("one_pending_callback", "C05/pending_callbacks_ne_1", format!("{when}: miner {} has pcd {} pledge {} vesting {} but {} pending proving-deadline callbacks (active flag {})", m.id, m.pre_commit_deposits, m.initial_pledge, m.locked_funds, proving.len(), m.deadline_cron_active));
                     }
@@ -337,6 +343,12 @@ impl CronMonitor {
             } else if !proving.is_empty() {
                 // allowed: an inactive miner may still have a last callback queued
                 o.count("inactive_miner_with_callback");
+            }
+            // remember miners seen without funds and without a running cron (and forget them once it runs)
+            if !funds && !m.deadline_cron_active && proving.is_empty() {
+                self.idle_unfunded.insert(m.id);
+            } else if m.deadline_cron_active {
+                self.idle_unfunded.remove(&m.id);
             }
             if proving.len() > 1 {
                 o.violate("one_pending_callback", "C05/duplicate_callbacks", format!("{when}: miner {} has {} pending proving-deadline callbacks: {:?}", m.id, proving.len(), proving));
